@@ -15,7 +15,7 @@ from ..datasets import Dataset, Workdir, dataset_specs, place_pressures, write_i
 
 ID = "C13"
 SHARDS = {"quick": 16, "thorough": 16}
-RULE = ("data sets as C05 (1-5 q-points, 1-3 atoms) and one drawn re-presentation kind: q-points 2..nq permuted with their "
+RULE = ("data sets as C05 (1-5 q-points, 1-3 atoms; a second stream with 257-770 q-points) and one drawn re-presentation kind: q-points 2..nq permuted with their "
         "weights, modes permuted (any at non-Gamma points, modes >= 4 at Gamma) at every volume, weights times a positive factor, "
         "static columns permuted/upper-cased/prefixed, static rows (and lattice rows) permuted, phonon volume blocks reversed or "
         "shuffled; non-trivial = a non-identity permutation with nq >= 3 or np >= 6, or a factor that is not a power of two, or any "
@@ -28,10 +28,16 @@ KINDS = ["q-order", "mode-order", "weight-scale", "static-columns", "static-rows
 
 
 @st.composite
-def cases(draw):
+def cases(draw, many_q=False):
     s = draw(dataset_specs(max_nq=5, max_na=3, max_nt=3, interpolators=["lsq_poly", "spline", "pchip", "lagrange", "krogh", "akima"]))
     s["order"] = min(s["order"], 3)
-    s["kind"] = draw(st.sampled_from(KINDS))
+    s["kind"] = draw(st.sampled_from(KINDS[:3] if many_q else KINDS))
+    if many_q:
+        # a dense Brillouin-zone sampling (hundreds of q-points) on a small (T,V) grid
+        s["nq"] = draw(st.sampled_from([257, 300, 513, 770]))
+        s["na"] = min(s["na"], 2)
+        s["nt"] = min(s["nt"], 2)
+        s["ntv"] = min(s["ntv"], 21)
     s["pseed"] = draw(st.integers(0, 10 ** 6))
     s["factor"] = draw(st.sampled_from([2.0, 0.5, 3.0, 0.1, 7.25, 1e-3, 123.456, 1e-9, 3e-13, 1e12]))
     s["vorder"] = draw(st.sampled_from(["reversed", "shuffled"]))
@@ -180,12 +186,13 @@ def sub_presentations(ctx):
             nt = s["factor"] not in (2.0, 0.5)
         else:
             nt = not info["ident"]
-        cl = ["kind-" + kind]
+        cl = ["kind-" + kind] + (["q-points>256"] if ds.nq > 256 else [])
         if kind == "volume-order":
             cl.append("volume-order-" + ("rejected" if info["rejected"] else "same-results"))
         ctx.case(s, nt, classes=cl)
 
     ctx.run_given(body, cases(), max_examples=ctx.n(96, 4000), shrink=not ctx.quick)
+    ctx.run_given(body, cases(many_q=True), max_examples=ctx.n(16, 320), shrink=not ctx.quick)
 
 
 EXAMPLE_KINDS = ["q-order", "mode-order", "weight-scale", "static-columns", "static-rows", "volume-order"]
